@@ -1,6 +1,7 @@
 """Per-property configuration of the driver (what is encoded, bounds, stubs)."""
 
-MEM_GB = 16  # address-space cap per process (cbmc), DESIGN.md §1.5
+import os
+MEM_GB = int(os.environ.get("VERIF_MEM_GB", "16"))  # address-space cap per process (cbmc), DESIGN.md §1.5
 
 COMMON_ASSUMPTIONS = [
     "Kani 0.68 / CBMC 6.11 / CaDiCaL are sound for the compiled MIR of /repo (dev profile: overflow checks on)",
@@ -40,7 +41,7 @@ PROPS = {
     },
 }
 
-HOOK_COMMITS = ["c5d3f11"]
+HOOK_COMMITS = ["c5d3f11", "3a80667", "5bf6e86"]
 
 PROPS["C06"] = {
     "engine": "kani", "module": "c06", "feature": "c06", "jobs": 12,
@@ -215,17 +216,63 @@ PROPS["C09"] = {
     "level_note": "PARTIAL: multi-string lists are not claimed. Trusted: Kani/CBMC/CaDiCaL.",
 }
 
+PROPS["C19"] = {
+    "engine": "kani", "module": "c19", "feature": "c19", "jobs": 6, "timeout_q": 600,
+    "functions": ["Modulo2Equation::{from_parts,add,add_ptr,is_unsolvable,is_identity,eval_vars}",
+                  "Modulo2System::{new,push,check,echelon_form,gaussian_elimination}"],
+    "bounds": "one harness per concrete shape (variables <= 4, equations <= 3 quick / <= 4 thorough, concrete variable lists incl. repeated rows, "
+              "dependent sums, contradictions, unused variables, rows needing a swap); the constant of every equation is a symbolic u8 (eight "
+              "independent GF(2) systems per query); the witness assignment is symbolic",
+    "outside": "lazy_gaussian_elimination (the solver the builder uses): two equations over two variables gave no answer in 20 min / 8 GB; "
+               "shapes not listed; symbolic variable lists (every Vec becomes symbolic-sized)",
+    "assumptions": ["std::backtrace::Backtrace::capture is stubbed by Backtrace::disabled (error values are irrelevant to the property; the "
+                    "backtrace drop glue alone took 6.5 GB)", "results are mem::forget-ed (drop glue not analysed)"],
+    "level_text": "Bounded model checking of the dense solver per concrete shape with symbolic constants: Ok(s) implies check(s) on the "
+                  "original system, and for a symbolic witness t, check(t) implies Ok -- 'Ok exactly when solvable', and no panic.",
+    "level_note": "PARTIAL: the lazy solver is not claimed. Trusted: Kani/CBMC/CaDiCaL.",
+}
+
+PROPS["C11"] = {
+    "engine": "kani", "module": "c11", "feature": "c11", "jobs": 8, "pre": ["gen_ef"],
+    "functions": ["mem_dbg::MemSize::mem_size(SizeFlags::default()) of Rank9, RankSmall (five variants), Select9, BitVec, BitFieldVec, EliasFano",
+                  "Rank9::new", "RankSmall::new", "Select9::new (thorough, concrete contents)", "BitVec::new", "BitFieldVec::{new,new_unaligned}",
+                  "EliasFanoBuilder::{new,build}", "EliasFano::{map_low_bits,map_high_bits}"],
+    "bounds": "rank structures: concrete lengths (1, 512, 513, 4096, 4097, 8192, 8193 bits) over all-zero / all-one contents (space does not depend "
+              "on contents): overhead <= documented fraction of len/8 plus 96 bytes; BitVec/BitFieldVec: symbolic length (<= 2^20 / 2^16) and width; "
+              "Elias-Fano: on the (n,u) grid the number of lower bits equals floor(lg(u/n)) as computed by the platform libm, the two vectors have "
+              "exactly n fields resp. n + (u >> l) + 1 bits, and mem_size is those plus headers",
+    "outside": "the n(2 + lg(u/n)) inequality off the grid (transcendental, libm-dependent); static functions and filters (1.23 n b / 1.135 n b: "
+               "set_up_graphs computes the geometry with ln, log2, ceil, lambert_w0 in f64 and mem_size needs a built function, C07); selection "
+               "structures other than Select9",
+    "assumptions": EF_STUBS[:1] + ["mem_dbg's derive is trusted to count the heap allocations of Box<[T]> / Vec<T> of Copy data"],
+    "level_text": "Bounded model checking of constructor + mem_size against the documented fraction (rank structures, Select9) and against the "
+                  "exact allocation formula (vectors, Elias-Fano on the grid).",
+    "level_note": "PARTIAL (clauses listed under 'outside' are not claimed). Trusted: Kani/CBMC/CaDiCaL, mem_dbg's MemSize derive.",
+}
+
+PROPS["C02"] = {
+    "engine": "kani", "module": "c02", "feature": "c02", "jobs": 6, "timeout_q": 600,
+    "functions": ["BitVec::select_hinted", "BitVec::select_zero_hinted", "SpanType::from_span", "Inventory for usize (set_*_span, is_*_span, get)",
+                  "SelectAdapt::log2_ones_per_sub32", "Select::select guard", "thorough: SelectAdapt::select_unchecked relative to the inventory invariant"],
+    "bounds": "hinted completion: 2 (quick) / 3 (thorough) fully symbolic words, symbolic valid hint and rank; kernels: every usize; "
+              "query-side step check (thorough): one symbolic word, 16-bit spans, L=3, one subinventory word",
+    "outside": "the CONSTRUCTORS of SelectAdapt, SelectAdaptConst, SelectZeroAdapt, SelectZeroAdaptConst, SelectSmall, SelectZeroSmall and Select9 "
+               "(inventories whose length is decided by population counts of symbolic words: 51 GB for one word): nothing is claimed end to end, a "
+               "change inside a constructor is not detected; the 32/64-bit span tiers and all other selectors' query functions",
+    "assumptions": ["query-side step check: the inventory invariant is the one the documentation of SelectAdapt states (hand-written in the harness)"],
+    "level_text": "Bounded model checking of the pieces of selection that are array-only code: the hinted scan, the span-type and inventory "
+                  "kernels over all values, the None guards, and (thorough) one query function relative to a stated inventory invariant.",
+    "level_note": "PARTIAL: no selection structure is decided end to end (constructors out of reach). Trusted: Kani/CBMC/CaDiCaL.",
+}
+
 # Properties not (yet) claimed, with the reason. Entries for properties that
 # gain a check are ignored by tools/gen_manifest.py.
 NOT_APPLICABLE = {
-    "C02": "check not built yet in this revision (planned, partial: DESIGN.md §2 C02)",
     "C07": "VBuilder::try_build_func needs threads (std::thread::scope, crossbeam, rayon), per-key xxh3 hashing and loops proportional to n: no bounded symbolic encoding of 'terminates and maps every key' is within reach of Kani/CBMC or a hand translator; the decidable part (edges in range, same at build and query time) is C16",
     "C08": "no-false-negatives is C07 for a hashed value (same builder, same obstacle); 'false-positive frequency close to 2^-b' is a statistical statement about a hash, not an assertion an SMT solver can decide",
-    "C11": "check not built yet in this revision (planned, partial: DESIGN.md §2 C11)",
     "C15": "mmap/load_full are file I/O and an FFI mmap call; epserde's in-memory (de)serialisation hashes type names and walks a generic reader/writer stack of a dependency: heap- and loop-heavy, beyond a bounded encoding; measured obstacles in DESIGN.md §2 C15",
     "C17": "same entry points and obstacles as C07 (threads, per-key hashing, file-backed stores); build_loop is a private generic method whose retry logic cannot be driven without rewriting the builder",
     "C18": "offline store is file I/O; the in-memory store pushes into the Vec selected by symbolic top bits (symbolic choice of heap object: 20 GB / 13 min for two pushes), and with those bits fixed nothing is left for a solver to decide",
-    "C19": "check not built yet in this revision (planned, partial: DESIGN.md §2 C19)",
     "C20": "ZstdLineLender is FFI (zstd C library), GzipLineLender a full inflate state machine, LineLender over a 3-byte Cursor reached 8 GB in 6 min (BufRead::read_line: memchr, String growth, UTF-8 validation); only trivial adapters are encodable",
 }
 
